@@ -55,6 +55,11 @@ static void c06_days() {
     if (z % 15013 == 0) { J j; j.str("kind", "day").str("date", fmtDate(y, m, d)).num("epochDays", z).num("dow", ld.dayOfWeek()); sample(j); }
     prev = ld;
   }
+  // isYearValid over every int16 year: exactly the documented interval [1873, 2127]
+  for (int y = -32768; y <= 32767; y++) {
+    CNT.add("c06.year_validity_cases");
+    if (LocalDate::isYearValid((int16_t) y) != (y >= 1873 && y <= 2127)) { J j; j.num("year", y); witness("c06:isYearValid-wrong", "isYearValid differs from the documented interval [1873, 2127]", j); }
+  }
   // dates outside the year range are errors; sentinel behaviour
   for (int y : {-32768, -1, 0, 1872, 2128, 9999, 32767}) {
     LocalDate e = LocalDate::forComponents((int16_t) y, 6, 15);
@@ -131,6 +136,9 @@ static void check_epoch_second(int64_t t) {
   else {
     LocalDate ld = LocalDate::forEpochSeconds(es);
     if (ld != ldt.localDate()) { bad = true; why = "LocalDate::forEpochSeconds != LocalDateTime date part"; }
+    else if (ldt.localTime() != LocalTime::forComponents((uint8_t) c.h, (uint8_t) c.mi, (uint8_t) c.s) || ldt.localTime().toSeconds() != (acetime_t) (c.h * 3600 + c.mi * 60 + c.s)) { bad = true; why = "LocalDateTime time part != time of day"; }
+    else if (LocalDateTime::forComponents((int16_t) c.y, (uint8_t) c.mo, (uint8_t) c.d, (uint8_t) c.h, (uint8_t) c.mi, (uint8_t) c.s) != ldt) { bad = true; why = "forComponents(fields) != forEpochSeconds(t)"; }
+    else if (OffsetDateTime::forLocalDateTimeAndOffset(ldt, TimeOffset()).toEpochSeconds() != es || OffsetDateTime::forLocalDateTimeAndOffset(ldt, TimeOffset()).localTime() != ldt.localTime()) { bad = true; why = "forLocalDateTimeAndOffset(ldt, +00:00) is not the same instant"; }
     else if (ldt.dayOfWeek() != oracle_dow(days_from_civil(c.y, c.mo, c.d))) { bad = true; why = "dayOfWeek wrong"; }
     else {
       int64_t u = t + 946684800LL;
